@@ -608,4 +608,9 @@ package tchannel
 //@   ensures old(has(l.peersByHostPort, hostPort)) ==> p.scCount == old(l.peersByHostPort[hostPort].Peer.scCount)
 //@   ensures !old(has(l.peersByHostPort, hostPort)) && old(has(l.parent.peersByHostPort, hostPort)) ==> p.scCount == uint32(old(l.parent.peersByHostPort[hostPort].scCount) + 1)
 //@   ensures !old(has(l.peersByHostPort, hostPort)) && !old(has(l.parent.peersByHostPort, hostPort)) ==> p.scCount == 1
+// ... and the reference is taken under the list's write lock, for an entry that
+// is absent at that moment (so a concurrent Add of the same host:port cannot
+// make this call count a reference it then does not record)
+//@   label reference-taken-under-the-lock-for-an-absent-entry
+//@   atcall addSC locked(l) && !has(l.peersByHostPort, hostPort)
 //@   property C16
